@@ -28,6 +28,16 @@ CHECKS["C14"] = ("model_checking",
     "parameters) after every call. Bounds/constraints/optimality are judged per executed fit (exploration-strength: sampled shapes, local optimality on a stencil).",
     "TLC; numpy.linalg.lstsq; objective convention sum(((f-y)/sigma)^2); local (not global) optimality; tolerances stated in spec/Trace_C14.tla",
     "DESIGN.md §4 C14")
+CHECKS["C04"] = ("model_checking",
+    "TLC model checking of the per-ray search state machine (AndOrSearch.tla) + TLC trace validation of hook-level loop events and returned coordinates of real AndContour/OrContour runs",
+    "The search is a small deterministic state machine over a monotone exceedance profile; TLC explores every threshold profile of a 5-6 point sample (mutation EmitNext "
+    "must violate). Real contours are computed over seeded cases (mode, model, alpha=a/b, allowed_error=e/1000, deg_step, n, drawn/supplied/tied samples, OR theta ranges); "
+    "the loop's hook events of every ray must be a behaviour of the search (branch taken, continue/exit decisions with the exact rational tolerance test, iteration cap, "
+    "warning iff cap), the logged count is re-measured on the sample at the logged vector, returned points must be the rays' final vectors (OR: exactly those inside "
+    "1.1*max, in order) and the closing sequence as documented.",
+    "TLC; hook events (VIROCON_VERIF=1) bound to truth by recounting on the sample; exact ties of the tolerance test accept either decision; without hooks the check degrades "
+    "to API-level clauses (says so in evidence)",
+    "DESIGN.md §4 C04")
 
 NOT_YET = {}
 
